@@ -81,6 +81,8 @@ impl SilencerEmulator<Phase> {
                 self.current += update_rate;
             }
         }
+        // the phase accumulator is a 16-bit register: full turns must not pile up
+        self.current = self.current.rem_euclid(1 << 16);
         (self.current >> 8) as u8
     }
 }
